@@ -363,3 +363,5 @@ def check(ctx):
     ctx.run('C03.R4b', 'every successful Ring::poll gives queue-space waiters a wake-up chance', r4b_poll_wakes)
     ctx.run('C03.R5', 'wake_blocked_futures conserves wakers (woken or re-queued; loops exit only on exhaustion)', r5_conservation)
     ctx.run('C03.R6', 'register-then-recheck on the QueueFull path', r6_recheck)
+    from . import c04
+    ctx.run('C03.R7', 'QueueFull => wait_for_submission on every path before Pending (a waker kept in the operation state is never woken for queue space) (=C04.R7)', c04.r7_full_waits)
